@@ -28,7 +28,8 @@ EXPLANATION = (
     'are ever registered there; the model handed to each op handler in '
     'generate_table_op_sql is a fresh mutator.create_model(); '
     'R-C03.7 mutation membership tests in the optimiser are identity-based (set/dict), see R-C01.7; R-C03.8 no declared initial value is used as a truth value anywhere in mutations/, mutators/ and db/ (0, "", False are initial values; only None means absent); '
-    'R-C03.9 / R-C03.10 are R-C01.8 / R-C01.9: both are ways in which merging operations into one rebuild gives a different schema than applying them one at a time.')
+    'R-C03.9 / R-C03.10 are R-C01.8 / R-C01.9: both are ways in which merging operations into one rebuild gives a different schema than applying them one at a time; '
+    'R-C03.11 folding a rename chain copies the whole target (name, db_column, db_table); R-C03.12 the per-model regrouping is segmented at RenameModel / DeleteModel (known finding); R-C03.13 the merged rebuild\'s data copy skips exactly the deleted columns (shared with R-C02.1/.2).')
 NOT_DECIDED = (
     'Equivalence of the optimised run and the one-at-a-time run (signature, '
     'schema, rows) for all sequences: needs execution of both.')
